@@ -1,4 +1,5 @@
 import AsyncsshModel.Model.Transport
+import AsyncsshModel.Model.HostileWire
 import AsyncsshModel.Gen.C10
 /-
   C10 — work done per chunk: the generic handler loop, the packet receive loop with a step counter, the
@@ -49,6 +50,21 @@ def drainSteps (p : Params) (sh : Shim) (enc : Bool) : Nat → RState → Nat
       | none => 1
       | some (st', _) => 1 + drainSteps p sh enc fuel st'
 
+/-! ### dispatch of a synchronous handler -/
+
+/-- what `_recv_packet` does with a handler that only decodes its payload with getters
+    (connection.py:1715-1719): `except PacketDecodeError as exc: raise ProtocolError(str(exc))`, which `_recv_data`
+    turns into a DISCONNECT and a close reported to the owner as `ProtocolError` -/
+inductive Dispatch where
+  | carriesOn
+  | closeProtocolError
+  deriving Repr, DecidableEq
+
+def syncDispatch (schema : List FieldTy) (payload : Bytes) : Dispatch :=
+  match decodeFields schema payload with
+  | .error _ => .closeProtocolError
+  | .ok _ => .carriesOn
+
 /-! ### channel-open parameters -/
 
 inductive OpenOutcome where
@@ -71,19 +87,23 @@ def confirmPktsize (advertised : Nat) (dropbear : Bool) : OpenOutcome :=
     let p : Int := if dropbear then (advertised : Int) - 1 else advertised
     if Gen.C10.confirmGuardAfterAdjust && Gen.C10.confirmRejectsPktsize p then .protocolError else .accept p
 
+/-- the send loop leaves when no byte can be sent (the generated break covers every non-positive size) -/
+def sendLoopGuarded : Bool := Gen.C10.flushBreaks 0 && Gen.C10.flushBreaks (-1)
+
 /-- both open paths end in a positive `_send_pktsize` or a protocol error -/
 def openSafe : Bool :=
   Gen.C10.openGuardAfterAdjust && Gen.C10.openRejectsPktsize 0 && Gen.C10.openRejectsPktsize (-1) &&
   Gen.C10.confirmGuardAfterAdjust && Gen.C10.confirmRejectsPktsize 0 && Gen.C10.confirmRejectsPktsize (-1)
 
-/-- `_process_data`: what a DATA packet of `datalen` bytes does to a channel with receive window `window` -/
+/-- `_process_data`: what a DATA packet of `datalen` bytes does to a channel with receive window `window` of which
+    `buffered` bytes are already held for a paused reader -/
 inductive DataOutcome where
   | deliver
   | protocolError
   deriving Repr, DecidableEq
 
-def processData (datalen window : Nat) : DataOutcome :=
-  if Gen.C10.windowExceeded datalen window then .protocolError else .deliver
+def processData (datalen window buffered : Nat) : DataOutcome :=
+  if Gen.C10.windowExceeded datalen window buffered then .protocolError else .deliver
 
 /-- `_process_window_adjust`: Python integers do not wrap -/
 def windowAdjust (window adjust : Nat) : Nat := window + adjust
@@ -96,7 +116,8 @@ structure SendSt where
   maxpkt : Int            -- `_send_pktsize`
   deriving Repr
 
-/-- one iteration of `while self._send_buf and self._send_window:`; `none` = loop condition false -/
+/-- one iteration of `while self._send_buf and self._send_window:`; `none` = the loop is left (condition false,
+    or the generated `break` on the packet size) -/
 def flushIter (st : SendSt) : Option (SendSt × Bytes) :=
   match st.bufs with
   | [] => none
@@ -104,7 +125,8 @@ def flushIter (st : SendSt) : Option (SendSt × Bytes) :=
     if st.window = 0 then none
     else
       let pktsize := Gen.C10.flushPktsize st.window st.maxpkt
-      if (buf.length : Int) > pktsize then
+      if Gen.C10.flushBreaks pktsize then none        -- `if pktsize <= 0: break`, where the tree has it
+      else if (buf.length : Int) > pktsize then
         let data := pyTake buf pktsize
         some ({ st with bufs := pyDrop buf pktsize :: rest, window := st.window - data.length }, data)
       else
